@@ -39,7 +39,17 @@ def _scratch() -> Path:
     return d
 
 
-def run_tlc(module: str, cfg: str, workers: int = 16, coverage: bool = True, env: dict | None = None,
+def run_tlc(module: str, cfg: str, *a, **kw) -> dict:
+    """run_tlc_once, repeated once when the JVM did not get as far as a verdict (no result, no violation, no semantic error: typically a
+    start-up failure on a loaded machine)."""
+    r = run_tlc_once(module, cfg, *a, **kw)
+    if not r['ok'] and r['violated'] is None and r['rc'] != -9 and not any('Semantic' in e or 'Parse' in e or 'evaluat' in e for e in r['errors']):
+        time.sleep(5)
+        r = run_tlc_once(module, cfg, *a, **kw)
+    return r
+
+
+def run_tlc_once(module: str, cfg: str, workers: int = 16, coverage: bool = True, env: dict | None = None,
             simulate: str | None = None, depth: int | None = None, timeout: int = 3000, heap: str = '6g',
             extra: list | None = None, seed_arg: int | None = None) -> dict:
     """Run TLC on spec/<module>.tla with spec/<cfg>; returns parsed summary (never raises on a property violation)."""
